@@ -212,3 +212,18 @@ PLANS["C20"] = c20_plan
 PLANS["C16"] = cpu_plan("regs", 0, 0,
     "every wrapper listed in the property (Cr0/Cr2/Cr3/Cr4, Dr0-3/Dr6/Dr7, XCr0, Msr, Efer, FsBase, GsBase, KernelGsBase, Star, LStar, SFMask, UCet, SCet, Pat, ApicBase, segment selectors, FS/GS base, load_tss, GS::swap, rflags, mxcsr), each API (read, read_raw, write, write_raw, update, pcid variants) x preset register contents (0, all ones, only unmodelled bits, only modelled bits, alternating patterns, random) x arguments (empty, all, every single flag, random subsets; frame lattice; boundary PCIDs; valid and each invalid class of STAR selector quadruples and XCR0 combinations; canonical lattice; PAT tables over the 6 encodings); the trapped mov-cr/mov-dr/rdmsr/wrmsr/xsetbv/mov-sreg/retfq/ltr/swapgs instructions with register number, ECX and EDX:EAX are recorded in debug and release builds; distinct = distinct (api, preset, arguments)",
     design=({"module": "MC_Regs", "cfg": "MC_Regs.cfg", "workers": 8},))
+
+
+def c08_plan(tier, seed):
+    n = 6000 if tier == "quick" else 300000
+    runs = []
+    for sd in ([seed] if tier == "quick" else [seed, seed + 1, seed + 2]):
+        for prof in ("dev", "rel"):
+            runs.append({"name": "pte%d" % sd, "prof": prof, "args": ["pte", "--seed", str(sd), "--n", str(n)]})
+    design = [{"module": "MC_Pte", "cfg": "MC_Pte.cfg", "workers": 4}]
+    return {"design": design, "runs": runs, "trace_module": "Trace_Pte", "level": "model_checking",
+            "rule": "random programs of set_addr/set_frame/set_flags/set_unused/clone on one entry with aligned addresses from the 52-bit physical lattice (and unaligned ones as the panic case) and flag sets from bits 0-11 and 52-63 (each single bit, none, all, random): raw u64 before/after and all getters logged after every step; a PageTable written at all 512 slots through usize index / PageTableIndex / iter_mut and read back through all four paths and as raw bytes; new/default/clone/zero/is_empty incl. a single non-zero slot at each of the 512 positions; sizes and alignment; distinct = distinct (operation, arguments)",
+            "assumptions": ADDR_ASSUME, "exhaustive_note": "all 512 slots through every access path"}
+
+
+PLANS["C08"] = c08_plan
